@@ -4,6 +4,7 @@ go 1.26.8
 
 require (
 	entgo.io/ent v0.14.4
+	github.com/anishathalye/porcupine v1.3.0
 	github.com/gin-gonic/gin v1.10.0
 	github.com/google/uuid v1.6.0
 	github.com/mattn/go-sqlite3 v1.14.24
